@@ -109,7 +109,7 @@ HOST = _loopback_of_this_run()      # where the listeners listen
 CLIENT_HOST = '127.0.0.1'           # where connections to any address of 127.0.0.0/8 come from
 NWORKERS = 8
 QGT = 0.02                       # queue_get_timeout used in most cases (public attribute; default is 2 s)
-PHASE_TIMEOUT = 25.0             # watchdog: one phase of a case
+PHASE_TIMEOUT = 25.0 * float(os.environ.get('PYVC_BOUNDED_SLOW', '1'))   # watchdog: one phase of a case (confirmation run: x4)
 BUDGET = 50.0 if QUICK else 560.0   # no new case is handed out after this many seconds
 TLS = {'cert': None, 'key': None, 'dir': None}   # filled in main() before the workers are forked
 
